@@ -11,6 +11,8 @@ import Yarel.Drv.Fib
 import Yarel.Drv.Iter
 import Yarel.Drv.Mod
 import Yarel.Drv.Cls
+import Yarel.Drv.Err
+import Yarel.Drv.Num
 
 def main (args : List String) : IO UInt32 := do
   match args with
@@ -26,6 +28,8 @@ def main (args : List String) : IO UInt32 := do
   | "iter" :: rest => do Yarel.Drv.Iter.run rest; return 0
   | "mod" :: rest => do Yarel.Drv.Mod.run rest; return 0
   | "cls" :: rest => do Yarel.Drv.Cls.run rest; return 0
+  | "err" :: rest => do Yarel.Drv.Err.run rest; return 0
+  | "num" :: rest => do Yarel.Drv.Num.run rest; return 0
   | _ => do
     IO.eprintln "usage: yarel_model <family> [args]"
     return 2
